@@ -304,9 +304,15 @@ func (r *RoundRobinSelection) Select(pool UpstreamPool, _ *layer4.Connection) *U
 	if n == 0 {
 		return nil
 	}
+	var first uint32
 	for i := uint32(0); i < n; i++ {
 		robin := atomic.AddUint32(&r.robin, 1)
-		host := pool[robin%n]
+		if i == 0 {
+			first = robin % n
+		}
+		// probe n consecutive slots; deriving each slot from the counter alone would skip
+		// one when the counter wraps around, because 2^32 is not a multiple of n
+		host := pool[(first+i)%n]
 		if host.available() {
 			return host
 		}
